@@ -4,7 +4,7 @@
    into "bad"; in failing mode "bad" raises, in non-failing mode it evaluates
    false without raising). *)
 From AK Require Import Base.Prelude Bytes.Text Bytes.FabHeader Bytes.BinFile
-  Reader.Select Reader.BoxRead Reader.Level Plotfile.TextHeader.
+  Reader.Select Reader.BoxRead Reader.Level Plotfile.TextHeader Bytes.Word.
 
 Record ldir := { ld_cellh : option text; ld_files : list (bytes * bytes) }.
 Record pdisk := { pd_header : option text; pd_dirs : list (bytes * ldir) }.
@@ -110,6 +110,80 @@ Definition shape_ok_file (nf : Z) (ld : ldir) (c : cellh) (name : bytes) : bool 
 Definition check_shape (nf : Z) (ld : ldir) (c : cellh) : bool :=
   forallb (shape_ok_file nf ld c) (np_unique (c_files c)).
 
+(* ---- taste_binary_data (as repaired by the fix: commit of KNOWN_FINDINGS.txt) ----
+   For every binary file of a level: mp_read_binary_data reads every FAB from
+   the start of the file until a header line does not parse or the data are
+   short; the idx-th FAB read is compared, field by field, with the idx-th
+   row (boxes of the file sorted by recorded offset) of the level header's
+   minima and maxima tables: np.isclose(table value, np.nanmin / np.nanmax of
+   the component).
+   [close tok w] = np.isclose(float(tok), value of the word w): floating-point
+   parsing and arithmetic are Python's - an oracle of the model, instantiated
+   in the correspondence by the table of the pairs numpy finds close.
+   Outside the model: tables whose rows have different lengths (numpy raises
+   on them), ties between recorded offsets (np.argsort is not stable). *)
+Fixpoint insert_by {A} (key : A -> Z) (b : A) (l : list A) : list A :=
+  match l with
+  | [] => [b]
+  | x :: l' => if key b <? key x then b :: l else x :: insert_by key b l'
+  end.
+Definition sort_by {A} (key : A -> Z) (l : list A) : list A := fold_right (insert_by key) [] l.
+
+(* lv_boxes_ids[bf_mask][ofst_sort]: the boxes of file [name] (positions in
+   the level header), sorted by recorded offset *)
+Definition file_ids (c : cellh) (name : bytes) : list nat :=
+  sort_by (fun i => nth i (c_offsets c) 0)
+          (filter (fun i => bytes_eqb (nth i (c_files c) []) name) (seq 0 (length (c_files c)))).
+
+(* mp_read_binary_data: (shape, components, payload) of every FAB read *)
+Fixpoint scan_data (fuel : nat) (f : bytes) (pos : Z) : list (list Z * Z * bytes) :=
+  match fuel with
+  | O => []
+  | S fuel' =>
+      match read_header f pos with
+      | None => []
+      | Some (h, shp, p1) =>
+          let total := shp ++ [h_nc h] in
+          let data := fromfile f p1 (zprod total) in
+          if reshape_ok data total
+          then (shp, h_nc h, data) :: scan_data fuel' f (p1 + blen data)
+          else []
+      end
+  end.
+
+Section BinaryData.
+Variable close : token -> bytes -> bool.
+
+(* one field of one FAB: data[..., k] exists, the component has a non-NaN
+   value, and both table entries are close to its extrema *)
+Definition field_data_ok (fab : list Z * Z * bytes) (mins maxs : list token) (k : nat) : bool :=
+  let '(shp, nc, data) := fab in
+  let comp := sub (8 * zprod shp * Z.of_nat k) (8 * zprod shp) data in
+  (Z.of_nat k <? nc) &&
+  match nth_error mins k, nth_error maxs k, nan_min comp, nan_max comp with
+  | Some tmin, Some tmax, Some wmin, Some wmax => close tmin wmin && close tmax wmax
+  | _, _, _, _ => false
+  end.
+
+Definition fab_data_ok (nf : Z) (fab : list Z * Z * bytes) (mins maxs : list token) : bool :=
+  forallb (field_data_ok fab mins maxs) (seq 0 (Z.to_nat nf)).
+
+Definition data_ok_file (nf : Z) (ld : ldir) (c : cellh) (name : bytes) : bool :=
+  match lookup name (ld_files ld) with
+  | None => false
+  | Some f =>
+      let ids := file_ids c name in
+      let fabs := scan_data (S (length f)) f 0 in
+      forallb (fun kf => match nth_error ids (fst kf) with
+                         | None => false          (* more FABs in the file than rows: IndexError *)
+                         | Some i => fab_data_ok nf (snd kf) (nth i (c_mins c) []) (nth i (c_maxs c) [])
+                         end)
+              (combine (seq 0 (length fabs)) fabs)
+  end.
+
+Definition check_data (nf : Z) (ld : ldir) (c : cellh) : bool :=
+  forallb (data_ok_file nf ld c) (np_unique (c_files c)).
+
 (* Taster(...): everything except the box-coordinate check, which involves
    floating-point values and is handled separately (Taste/Coords.v) *)
 Definition taste_good (o : topts) (limit : option Z) (d : pdisk) : bool :=
@@ -127,9 +201,10 @@ Definition taste_good (o : topts) (limit : option Z) (d : pdisk) : bool :=
               (if t_headers o then forallb (fun lc => check_headers nf (fst lc) (snd lc)) lvs else true) &&
               (if t_shape o then forallb (fun lc => check_shape nf (fst lc) (snd lc)) lvs else true) &&
               (* taste_binary_data is only reached when binary_data is set and
-                 one of the two other binary checks is off, and then fails on
-                 an unbound name: every such run is "bad" *)
-              negb (t_data o && negb (t_headers o && t_shape o))
+                 one of the two other binary checks is off *)
+              (if t_data o && negb (t_headers o && t_shape o)
+               then forallb (fun lc => check_data nf (fst lc) (snd lc)) lvs else true)
           end
       end
   end.
+End BinaryData.
